@@ -25,8 +25,10 @@ Inductive exp :=
 | WithHandler (tag : nat) (h body : exp) (* (with-exception-handler (lambda (c) (push 5 tag) (push 6 c) h) (lambda () body)) *)
 | Raise (e : exp)
 | RaiseC (e : exp)
-| Guard (only : option nat) (tag : nat) (h body : exp).
+| Guard (only : option nat) (tag : nat) (h body : exp)
                                          (* (guard (c ((eqv? c only) | #t   (push 7 tag) (push 6 c) h)) body) *)
+| CCall (body : exp).                    (* body runs in a procedure that C code calls back through a NESTED sexp_apply
+                                            (comparator of srfi-95 sort, hash function of srfi-69, macro transformer in eval) *)
 
 (** ------------------------------------------------------------------ dynamic bindings *)
 (** handler closures: the [self] closure built by with-exception-handler (init-7.scm:1180-1192)
